@@ -90,3 +90,11 @@ pub fn set_sleep_agent(a: Option<Arc<dyn SleepAgent>>) {
     ensure_installed();
     *SLEEP_AGENT.write().unwrap() = a;
 }
+
+/// an explicit scheduling point reached by harness-owned code (no-op on uncontrolled threads)
+pub fn harness_point(kind: &'static str) {
+    let a = AGENT.with(|a| a.borrow().clone());
+    if let Some(a) = a {
+        a.point(kind, 0);
+    }
+}
